@@ -207,7 +207,7 @@ impl Lcg {
 }
 
 /// run the workers under the given policy; returns (status, schedule at interesting points, per-worker interesting counts)
-fn controlled(w: &World, sc: &Scenario, policy: Policy) -> (String, Vec<u32>, BTreeMap<u32, usize>, Vec<String>) {
+fn controlled(w: &World, sc: &Scenario, policy: Policy) -> (String, Vec<u32>, BTreeMap<u32, usize>, Vec<String>, Vec<Ev>) {
     let tids: Vec<u32> = sc.threads.keys().copied().collect();
     let names = key_names(w, sc, None);
     verif::start_trace();
@@ -247,7 +247,8 @@ fn controlled(w: &World, sc: &Scenario, policy: Policy) -> (String, Vec<u32>, BT
         if able.is_empty() {
             let desc: Vec<String> = parked.iter().map(|p| {
                 let (l, wr) = p.want.unwrap_or((0, false));
-                format!("t{}:wants:{}:{}", p.tid, w.lock_map.get(&l).copied().unwrap_or("?"), if wr { "W" } else { "R" })
+                let hs: Vec<String> = verif::holds_of(p.tid).iter().map(|(hl, hw)| format!("{}:{}{}", w.lock_map.get(hl).copied().unwrap_or("?"), if *hw { "W" } else { "R" }, if *hl == l { "(same-shard)" } else { "" })).collect();
+                format!("t{}:wants:{}:{}:holding:{}", p.tid, w.lock_map.get(&l).copied().unwrap_or("?"), if wr { "W" } else { "R" }, if hs.is_empty() { "-".to_string() } else { hs.join("+") })
             }).collect();
             status = format!("deadlock[{}]", desc.join(","));
             break;
@@ -291,7 +292,7 @@ fn controlled(w: &World, sc: &Scenario, policy: Policy) -> (String, Vec<u32>, BT
         cur = Some(pick);
         verif::grant(pick);
     }
-    verif::sched_off();
+    if status == "ok" { verif::sched_off(); } else { verif::abandon(); }
     if status == "ok" {
         for h in handles {
             if !h.join().unwrap_or(false) {
@@ -302,7 +303,7 @@ fn controlled(w: &World, sc: &Scenario, policy: Policy) -> (String, Vec<u32>, BT
     // on deadlock / timeout the workers stay parked for ever; they are leaked on purpose
     let log = verif::stop_trace();
     let ops = op_list(w, &names, &log, true);
-    (status, sched, counts, ops)
+    (status, sched, counts, ops, log)
 }
 
 fn ident_tokens(sc: &Scenario) -> BTreeSet<String> {
@@ -350,21 +351,15 @@ fn op_list(w: &World, names: &HashMap<(usize, u64), String>, log: &[Ev], with_ti
     prog
 }
 
-/// one operation on a traced thread: its map-operation program and lock nestings
+/// one operation alone, on a worker under the scheduler (so that a request the worker's own guards
+/// block is reported as a deadlock instead of hanging): its map-operation program and lock nestings
 fn probe(w: &World, sc: &Scenario, op: &Op) -> String {
     let names = key_names(w, sc, Some(op));
-    let wl = World { root: w.root.clone(), db: w.db.clone(), lock_map: HashMap::new(), map_name: HashMap::new() };
-    let scc = sc.clone();
-    let opc = op.clone();
-    verif::start_trace();
-    let h = std::thread::spawn(move || {
-        verif::set_tid(77);
-        let r = std::panic::catch_unwind(std::panic::AssertUnwindSafe(|| exec(&wl, &scc, &opc)));
-        verif::set_tid(0);
-        r.is_ok()
-    });
-    let ok = h.join().unwrap_or(false);
-    let log = verif::stop_trace();
+    let mut one = sc.clone();
+    one.threads = BTreeMap::new();
+    one.threads.insert(77, vec![op.clone()]);
+    let (status, _sched, _counts, _ops, log) = controlled(w, &one, Policy::Seq(vec![77]));
+    let ok = status == "ok";
     let prog = op_list(w, &names, &log, false);
     let mut nest: BTreeSet<String> = BTreeSet::new();
     let mut nlock = 0usize;
@@ -379,7 +374,8 @@ fn probe(w: &World, sc: &Scenario, op: &Op) -> String {
             }
         }
     }
-    format!("status={} locks={} prog=[{}] nest=[{}]", if ok { "ok" } else { "panic" }, nlock, prog.join(" "), nest.into_iter().collect::<Vec<_>>().join(" "))
+    let _ = ok;
+    format!("status={} locks={} prog=[{}] nest=[{}]", status, nlock, prog.join(" "), nest.into_iter().collect::<Vec<_>>().join(" "))
 }
 
 fn main() {
@@ -421,7 +417,7 @@ fn main() {
                         "script" => Policy::Script(t[2].split(',').filter(|x| !x.is_empty()).map(|x| { let (a, b) = x.split_once(':').unwrap(); (a.parse().unwrap(), b.parse().unwrap()) }).collect()),
                         _ => Policy::Rand(t[2].parse().unwrap(), t.get(3).map(|x| x.parse().unwrap()).unwrap_or(300)),
                     };
-                    let (status, sched, counts, ops) = if t[1] == "pre" { ("ok".to_string(), vec![], BTreeMap::new(), vec![]) } else { controlled(&w, &sc, policy) };
+                    let (status, sched, counts, ops, _log) = if t[1] == "pre" { ("ok".to_string(), vec![], BTreeMap::new(), vec![], vec![]) } else { controlled(&w, &sc, policy) };
                     let ops: Vec<String> = ops.into_iter().filter(|o| !o.contains(".len(")).collect();
                     let d1 = if status == "ok" { dump(&w) } else { "-".into() };
                     let d2 = if status == "ok" && !sc.after.is_empty() {
